@@ -255,5 +255,6 @@ func VerifC07_ProprietaryTwice(size int) {
 		verifAssert(ok, "proprietary: payload type")
 		verifAssert(verifBytesEq(pp.Bytes, want), "proprietary: every occurrence of the command keeps its own payload bytes")
 	}
+	verifNoGlobalWritesExcept("lorawan.macPayloadRegistry") // C10: no hidden package-level state is written
 	verifReach("done")
 }
